@@ -22,7 +22,7 @@ TNext ==
      \/ Ev.ev = "challenge" /\ PChallenge(Ev.from, Ev.realm) /\ UNCHANGED <<tid, badl, alls>>
      \/ Ev.ev = "log" /\ PLog(Ev.owners) /\ Mark /\ UNCHANGED tid
         /\ alls' = alls \cup {<<l, x>> : x \in LogBads(Ev.owners)}
-     \/ Ev.ev \in {"logdone", "redirect"} /\ PNote /\ UNCHANGED <<tid, badl, alls>>
+     \/ Ev.ev \in {"logdone", "redirect", "location"} /\ PNote /\ UNCHANGED <<tid, badl, alls>>
      \/ Ev.ev = "done" /\ PNote /\ UNCHANGED <<tid, badl, alls>>
         /\ (bad # "" => PrintT(<<"FIRST", tid, badl, bad>>))
         /\ \A x \in alls : PrintT(<<"REJECT", tid, x[1], x[2]>>)
